@@ -393,11 +393,20 @@ def check_visit_map(rep, f, b, variants, sfx):
             for i, x in enumerate(before[2]):
                 if x is not None and none_like(x):
                     slots[mk("field", hv, i)] = (l, i)
+        elif tag(before) == "agg" and before[1][0] == "array":
+            for i, x in enumerate(before[2]):
+                if x is not None and none_like(x):
+                    slots[mk("index", hv, mk("const", "usize", i))] = (l, ("idx", i))
     def slot_after(snap, slot):
         l, i = slots[slot]
         nv = snap.get(l)
         if i is None or nv is None:
             return nv
+        if isinstance(i, tuple):
+            k_ = i[1]
+            if tag(nv) == "agg" and k_ < len(nv[2]) and nv[2][k_] is not None:
+                return nv[2][k_]
+            return mk("index", nv, mk("const", "usize", k_))
         if tag(nv) == "agg" and i < len(nv[2]) and nv[2][i] is not None:
             return nv[2][i]
         return mk("field", nv, i)
